@@ -290,6 +290,8 @@ def restrict(desc, allowed, counts=None):
         for rnd in range(4):
             changed = False
             drop = []
+            widen = []
+            constval = {i[1]: i[3] for b in fd["blocks"] for i in b["ins"] if i[0] == "const" and not isinstance(i[3], str)}
             for c, bi, ii in desc_function_classes(desc, fd):
                 if c in allowed:
                     continue
@@ -313,11 +315,38 @@ def restrict(desc, allowed, counts=None):
                 elif kd == "cjmp":
                     parts = c.split(" ")
                     cands = [cd for cd in ("==", "!=", "<", ">", "<=", ">=") if "cjmp %s %s %s" % (cd, parts[2], parts[3]) in allowed]
+                    wide = ("u" if parts[2][0] == "u" else "i") + "32"
                     if cands:
                         new = ["cjmp", ins[1], cands[0], ins[3], ins[4], ins[5]]
                         kind = "cjmp:condition replaced"
                     else:
-                        bad.append(c)
+                        repl = None
+                        if parts[2] in ("i8", "u8", "i16", "u16") and "cjmp %s %s %s" % (parts[1], wide, parts[3]) in allowed:
+                            # what a C front end does: integer promotion of both operands, then compare
+                            pre, names = [], []
+                            for opnd, k, sfx in ((ins[1], parts[3][0], "w"), (ins[3], parts[3][1], "x")):
+                                nn = "%s_%s%d" % (opnd, sfx, bi)
+                                if k == "c":
+                                    pre.append(["const", nn, wide, constval.get(opnd, 1)])
+                                elif "cast %s>%s r" % (parts[2], wide) in allowed:
+                                    pre.append(["cast", nn, wide, opnd])
+                                else:
+                                    pre = None
+                                    break
+                                names.append(nn)
+                            if pre is not None:
+                                repl = pre + [["cjmp", names[0], ins[2], names[1], ins[4], ins[5]]]
+                                kind = "cjmp:operands promoted"
+                        if repl is None and "cjmp %s i32 cc" % parts[1] in allowed:
+                            a, b = "k%d_w%d" % (ii, bi), "k%d_x%d" % (ii, bi)
+                            repl = [["const", a, "i32", 1], ["const", b, "i32", 0], ["cjmp", a, ins[2], b, ins[4], ins[5]]]
+                            kind = "cjmp:operands replaced by constants"
+                        if repl is None:
+                            bad.append(c)
+                            continue
+                        widen.append((bi, ii, repl))
+                        if counts is not None:
+                            counts[kind] += 1
                         continue
                 if new is None:
                     if kd in ("binop", "unop", "cast", "load", "undef") and ins[2] != "ptr" and "const %s" % ins[2] in allowed:
@@ -336,6 +365,10 @@ def restrict(desc, allowed, counts=None):
                 changed = True
                 if counts is not None:
                     counts[kind] += 1
+            for bi, ii, repl in widen:
+                if (bi, ii) not in drop:
+                    fd["blocks"][bi]["ins"][ii : ii + 1] = repl  # the terminator: indices of earlier instructions stay valid
+                    changed = True
             for bi, ii in sorted(set(drop), reverse=True):
                 del fd["blocks"][bi]["ins"][ii]
                 changed = True
